@@ -15,9 +15,10 @@ func init() {
 			"(R2) in all 8 getter closures and constructors the validity flag is fetched (and stored to the captured flag) before the value, and the refresh happens exactly when the cached flag is invalid; " +
 			"(R3) the 4 Concurrent getters touch their captured state only with their mutex held; " +
 			"(R4) the option layers are written only by the four setter sites, under the option lock, a non-nil value only as validateValue's result on its success edge, every successful return is preceded by signalChanges after the store, and signalChanges invalidates the old flag and installs the new one under one write-lock section; " +
-			"(R5) getter <-> OptType constant <-> valueCache field tables agree (12 getters). " +
-			"NOT decided: JSON save->load equality, semantics of validation functions/regexes, real setter/getter interleavings (R2-R4 are the protocol's necessary order/lock facts).",
-		Rules: []ruleFn{c04R1, c04R2, c04R3, c04R4, c04R5},
+			"(R5) getter <-> OptType constant <-> valueCache field tables agree (12 getters); " +
+			"(R6) SaveConfig writes, for every registered option, its user-set value exactly when one is set (no other condition decides membership in the saved map), keyed by the option key, and hands that map to the encoder whose output is written to the config file. " +
+			"NOT decided: JSON encode->decode equality of values, semantics of validation functions/regexes, real setter/getter interleavings (R2-R4 are the protocol's necessary order/lock facts).",
+		Rules: []ruleFn{c04R1, c04R2, c04R3, c04R4, c04R5, c04R6},
 	})
 }
 
@@ -565,4 +566,105 @@ func c04R5(c *Ctx, r *Report) {
 				fmt.Sprintf("getter %s requests %v and reads valueCache fields %v (expected %s / %s)", g.Name(), types, fl, wt, want[wt]))
 		}
 	}
+}
+
+// c04R6: the saved file holds exactly the user-set values.
+func c04R6(c *Ctx, r *Report) {
+	const rule = "C04-R6"
+	r.SetFloor(rule, 3)
+	fn := c.Func("config.SaveConfig")
+	if fn == nil {
+		r.Undecided(rule, "config.SaveConfig", "anchor function missing")
+		return
+	}
+	// the range loop over the option registry
+	var next *ssa.Next
+	eachInstr(fn, func(in ssa.Instruction) {
+		if n, ok := in.(*ssa.Next); ok {
+			if rg, ok := n.Iter.(*ssa.Range); ok && strings.HasSuffix(vpath(rg.X), "config.options") {
+				next = n
+			}
+		}
+	})
+	if next == nil {
+		r.Undecided(rule, "config.SaveConfig / range over options", "no range loop over the option registry found")
+		return
+	}
+	var updates []*ssa.MapUpdate
+	eachInstr(fn, func(in ssa.Instruction) {
+		if mu, ok := in.(*ssa.MapUpdate); ok {
+			updates = append(updates, mu)
+		}
+	})
+	if len(updates) == 0 {
+		r.Bad(rule, "config.SaveConfig / saved map", "no value is ever put into the saved map")
+		return
+	}
+	savedMap := updates[0].Map
+	isSave := func(in ssa.Instruction) bool {
+		mu, ok := in.(*ssa.MapUpdate)
+		return ok && mu.Map == savedMap
+	}
+	unset := Guard{Name: "option.activeValue == nil", Truthy: false, Match: func(b ssa.Value) bool {
+		return fieldLoadOf(b, "config.Option", "activeValue")
+	}}
+	// the loop body starts on the ok edge of the Next
+	endOfIteration := func(in ssa.Instruction) bool {
+		if in == ssa.Instruction(next) {
+			return true
+		}
+		_, isRet := in.(*ssa.Return)
+		return isRet
+	}
+	var bodyStart ssa.Instruction
+	for _, ref := range *next.Referrers() {
+		if ex, ok := ref.(*ssa.Extract); ok && ex.Index == 0 {
+			for _, u := range *ex.Referrers() {
+				if ifi, ok := u.(*ssa.If); ok {
+					body := ifi.Block().Succs[0]
+					if len(body.Instrs) > 0 {
+						bodyStart = body.Instrs[0]
+					}
+				}
+			}
+		}
+	}
+	if bodyStart == nil {
+		r.Undecided(rule, "config.SaveConfig / loop body", "loop body not identified")
+		return
+	}
+	// search from the first body instruction itself: start "after" a virtual predecessor
+	path := reachFromBlockStart(fn, bodyStart.Block(), endOfIteration, []Guard{unset}, isSave)
+	r.Check(path == nil, rule, "config.SaveConfig / every option with a user-set value is saved",
+		"each loop iteration either stores the option's value in the saved map or has found option.activeValue == nil",
+		"an iteration can end without saving although the option has a user-set value (another condition decides what is saved)", c.pathString(path)...)
+	// the saved entry is key -> activeValue.getData(option) of the ranged option
+	for i, mu := range updates {
+		if mu.Map != savedMap {
+			continue
+		}
+		cons := fmt.Sprintf("config.SaveConfig / saved entry #%d", i+1)
+		kex, kok := mu.Key.(*ssa.Extract)
+		keyOK := (kok && kex.Tuple == ssa.Value(next) && kex.Index == 1) || fieldLoadOf(mu.Key, "config.Option", "Key")
+		val := unwrapConv(mu.Value)
+		if mi, ok := val.(*ssa.MakeInterface); ok {
+			val = mi.X
+		}
+		call, isCall := val.(*ssa.Call)
+		valOK := isCall && calleeName(&call.Call) == "config.valueCache.getData" && fieldLoadOf(call.Call.Args[0], "config.Option", "activeValue")
+		r.Check(keyOK && valOK, rule, cons, "saved under the range key with the data of option.activeValue",
+			fmt.Sprintf("saved entry is not (range key -> option.activeValue.getData()): key=%s value=%s", vpath(mu.Key), vpath(mu.Value)), c.Pos(mu.Pos()))
+		c.RequireGuards(r, rule, cons+" / only set values", fn, mu, Guard{Name: "option.activeValue != nil", Truthy: true, Match: unset.Match})
+	}
+	// map -> MapToJSON -> os.WriteFile(configFilePath)
+	enc := callsIn(fn, "config.MapToJSON")
+	wr := callsIn(fn, "os.WriteFile")
+	ok := len(enc) == 1 && len(wr) == 1 && enc[0].Common().Args[0] == savedMap
+	if ok {
+		data := wr[0].Common().Args[1]
+		ec, idx := callOf(data)
+		ok = ec != nil && idx == 0 && ssa.Instruction(ec) == enc[0].(ssa.Instruction) && strings.HasSuffix(vpath(wr[0].Common().Args[0]), "config.configFilePath")
+	}
+	r.Check(ok, rule, "config.SaveConfig / saved map is encoded and written to the config file",
+		"MapToJSON(saved map) is what os.WriteFile(configFilePath, ...) writes", "the bytes written to the config file are not the encoding of the collected user-set values")
 }
